@@ -40,7 +40,7 @@ var checkC13v3Decode = register("C13/v3decode", func(c scoreCase3) string {
 	if !ok {
 		return ""
 	}
-	o, err := decode3(spec.Environmental, c.Input, c.NilRecv)
+	o, err := decodeCase3(spec.Environmental, c)
 	if err != nil || o.isNil() {
 		return fmt.Sprintf("well-formed vector rejected: %v", err)
 	}
@@ -77,7 +77,7 @@ var checkC13v2Decode = register("C13/v2decode", func(c scoreCase2) string {
 	if !ok {
 		return ""
 	}
-	o, err := decode2(spec.Environmental, c.Input, c.NilRecv)
+	o, err := decodeCase2(spec.Environmental, c)
 	if err != nil || o.isNil() {
 		return fmt.Sprintf("canonical vector rejected: %v", err)
 	}
